@@ -121,6 +121,20 @@ fn concurrent(req: &Value) -> Value {
     json!({"equal": equal, "threads": n})
 }
 
+/// several generations in ONE process, each with its own PATH (so a formatter can be present for one call and absent for the next)
+fn seq(req: &Value) -> Value {
+    let mut outs = Vec::new();
+    if let Some(steps) = req["steps"].as_array() {
+        for st in steps {
+            if let Some(p) = st.get("path").and_then(|x| x.as_str()) {
+                std::env::set_var("PATH", p);
+            }
+            outs.push(gen(st));
+        }
+    }
+    json!({"outputs": outs})
+}
+
 fn tokens_json(ts: TokenStream) -> Value {
     let mut out = Vec::new();
     for tt in ts {
@@ -215,6 +229,7 @@ fn main() {
             "lex" => lex(&req),
             "emit" => emit(&req),
             "concurrent" => concurrent(&req),
+            "seq" => seq(&req),
             other => json!({"bad_request": format!("unknown cmd {other}")}),
         };
         let mut o = stdout.lock();
